@@ -104,8 +104,13 @@ def run(ctx):
         ref = md["ref"]
         ran_failing = any(nm in (md["failing"], md["second"]) for nm, _ in obs["log"])
         from harness.props.c16 import missing_error
-        if not ran_failing or missing_error(obs):
-            # the failing node never started (gated off / unsatisfiable), or the run completed and on_missing='error' fired
+        if not ran_failing:
+            # the failing node never started (gated off / unsatisfiable): nothing to surface
+            return msgs
+        if missing_error(obs):
+            # a node raised, so the call must surface THAT error (or a FAILED result carrying it); the strict
+            # on_missing check applies to completed runs only and must not replace the node's error
+            msgs.append(f"node {md['failing']} raised, but the call raised the on_missing error instead: {obs.get('error_repr')}")
             return msgs
         if obs["status"] not in ("failed", "raised"):
             msgs.append(f"node {md['failing']} raised but the run ended {obs['status']}")
